@@ -337,6 +337,19 @@ Section Matchers.
     N.of_nat (length (m_full m)) + trie_len (m_dom m)
     + N.of_nat (length (m_re m)) + N.of_nat (length (m_kw m)).
 
+  (** ** plugin/data_provider/domain_set: sets assembled from several members *)
+
+  (** MatcherGroup.Match: the first member that matches decides; the members are
+      value-less, so all that counts is whether SOME member matches. *)
+  Definition group_matches (g : list mix) (s : str) : bool :=
+    existsb (fun m => match mix_allowed m s with [] => false | _ :: _ => true end) g.
+
+  (** NewDomainSet: the set's own matcher, kept only [if m.Len() > 0], followed by
+      the GetDomainMatcher() of every referenced set (each a group again). The
+      anonymous set of base_domain.NewMatcher is assembled the same way. *)
+  Definition set_members (own : mix) (refs : list (list mix)) : list mix :=
+    (if mix_len own =? 0 then [] else [own]) ++ concat refs.
+
   (** ** load_helper.go *)
 
   (** asciiSpace: \t \n \v \f \r ' ' *)
